@@ -1,7 +1,9 @@
 import FimVerif.Drivers.Proto
-import FimVerif.Model.Deleg
+import FimVerif.Model.DelegDet
 /-! Line-protocol driver for C12.  JSON values travel in an order-preserving wire form:
-objects `{"o":[[k,v],…]}`, arrays `{"a":[…]}`, floats `{"f":0}`; everything else as itself. -/
+objects `{"o":[[k,v],…]}`, arrays `{"a":[…]}`, floats `{"f":0}`; everything else as itself.
+Details are the C03 model of `Capacities` / `Labels` on the regenerated class specifications (`Model/DelegDet.lean`);
+the label value validators are not run (the harness offers only values they accept). -/
 open Lean FimVerif.Proto FimVerif.Deleg
 
 partial def fromWire (j : Json) : Option JVal :=
@@ -35,9 +37,13 @@ partial def toWire (v : JVal) : Json :=
   | .arr l => Json.mkObj [("a", .arr (l.map toWire).toArray)]
   | .obj kv => Json.mkObj [("o", .arr (kv.map (fun p => Json.arr #[.str p.1, toWire p.2])).toArray)]
 
+/-- the driver's details: `Labels` validators accept everything they are offered -/
+def dOps : DetailOps CDet := cOps (fun _ _ => true)
+def mkD (ty : DType) (j : JVal) : Except Err CDet := dOps.fromDict ty j
+
 def errName : Err → String
   | .assertion => "assertion" | .delegation => "delegation" | .pool => "pool" | .key => "key"
-  | .type => "type" | .attribute => "attribute" | .capacity => "capacity" | .label => "label"
+  | .type => "type" | .attribute => "attribute" | .capacity => "capacity" | .label => "label" | .query => "query"
   | .unmodelled => "unmodelled"
 
 def tyOf (s : String) : Option DType :=
@@ -91,31 +97,31 @@ def dspecs (j : Json) : Option (List DSpec) :=
 
 /-- build a `Delegations` through the API, one delegation after the other:
 details object, `Delegation(...)`, `set_details`, `add_delegations` -/
-def buildDelegs (cty : DType) (specs : List DSpec) : Except Err (Delegations Det) :=
+def buildDelegs (cty : DType) (specs : List DSpec) : Except Err (Delegations CDet) :=
   specs.foldlM (fun ds s => do
     let x ← match s.det with
       | none => pure none
-      | some (k, j) => (mkDet k j).map some
+      | some (k, j) => (mkD k j).map some
     let d ← mkDelegation s.ty s.id s.fmt s.pool
     let d ← match x with
       | none => pure d
-      | some x => setDetails detOps d x
+      | some x => setDetails dOps d x
     addDelegation ds d) { ty := cty, items := [] }
 
 /-- construct the arguments of one call (details object, `Delegation(...)`, `set_details` each) -/
-def buildArgs (specs : List DSpec) : Except Err (List (Delegation Det)) :=
+def buildArgs (specs : List DSpec) : Except Err (List (Delegation CDet)) :=
   specs.mapM (fun s => do
     let x ← match s.det with
       | none => pure none
-      | some (k, j) => (mkDet k j).map some
+      | some (k, j) => (mkD k j).map some
     let d ← mkDelegation s.ty s.id s.fmt s.pool
     match x with
       | none => pure d
-      | some x => setDetails detOps d x)
+      | some x => setDetails dOps d x)
 
 /-- a sequence of `add_delegations(*args)` calls; stops at the first exception; the container as it is then -/
-def runCalls (cty : DType) (calls : List (List DSpec)) : Delegations Det × Option Err :=
-  let rec go (ds : Delegations Det) : List (List DSpec) → Delegations Det × Option Err
+def runCalls (cty : DType) (calls : List (List DSpec)) : Delegations CDet × Option Err :=
+  let rec go (ds : Delegations CDet) : List (List DSpec) → Delegations CDet × Option Err
     | [] => (ds, none)
     | c :: rest =>
       match buildArgs c with
@@ -126,33 +132,35 @@ def runCalls (cty : DType) (calls : List (List DSpec)) : Delegations Det × Opti
         | (ds', none) => go ds' rest
   go { ty := cty, items := [] } calls
 
-def dvalWire : DVal → Json
-  | .none => .null
+/-- an attribute value as `canon` prints it (lists as plain arrays; nothing else can be stored in a field) -/
+def cvalWire : CVal → Json
+  | .null => .null
   | .int i => .num (JsonNumber.fromInt i)
   | .bool b => .bool b
   | .str s => .str s
-  | .strs l => .arr (l.map Json.str).toArray
+  | .arr l => .arr (l.map (fun x => match x with | .str s => Json.str s | _ => Json.null)).toArray
+  | _ => .str "?"
 
-def detJson : Option Det → Json
+def detJson : Option CDet → Json
   | none => .null
-  | some d => .arr #[.str (tyName d.kind), .arr (d.fields.map (fun p => Json.arr #[.str p.1, dvalWire p.2])).toArray]
+  | some d => .arr #[.str (tyName d.kind), .arr ((cItems d).map (fun p => Json.arr #[.str p.1, cvalWire p.2])).toArray]
 
-def delegJson (d : Delegation Det) : Json :=
+def delegJson (d : Delegation CDet) : Json :=
   .arr #[.str d.id, .str (fmtName d.fmt), strJson d.pool, detJson d.details, .str (tyName d.ty)]
 
-def delegsJson (ds : Delegations Det) : Json :=
+def delegsJson (ds : Delegations CDet) : Json :=
   .arr #[.str (tyName ds.ty), .arr (ds.items.map delegJson).toArray]
 
 def sortStr (l : List String) : List String := l.mergeSort (fun a b => decide (a ≤ b))
 
-def nodeDelegsJson (r : NodeDelegs Det) : Json :=
+def nodeDelegsJson (r : NodeDelegs CDet) : Json :=
   let r' := r.mergeSort (fun a b => decide (a.1 ≤ b.1))
   .arr (r'.map (fun e => Json.arr #[.str e.1, delegsJson e.2])).toArray
 
-def poolJson (p : Pool Det) : Json :=
+def poolJson (p : Pool CDet) : Json :=
   .arr #[.str p.pid, .str (tyName p.ty), strJson p.deleg, strJson p.on_, ofStrs (sortStr p.for_), detJson p.details]
 
-def poolsJson (ps : Pools Det) : Json :=
+def poolsJson (ps : Pools CDet) : Json :=
   let l := ps.byId.mergeSort (fun a b => decide (a.pid ≤ b.pid))
   .arr (l.map poolJson).toArray
 
@@ -191,20 +199,22 @@ def pspecs (j : Json) : Option (List PSpec) :=
   | _ => none
 
 /-- `Pool(...)`, the `set_defined_for` / `add_defined_for` calls of the spec, `set_pool_details` -/
-def buildPool (s : PSpec) : Except Err (Pool Det) := do
-  let p : Pool Det :=
-    if s.ctor then mkPool s.ty s.id s.deleg s.on_ s.for_
-    else { ty := s.ty, pid := s.id, deleg := s.deleg, on_ := s.on_, for_ := s.for_.foldl addSet [], details := none }
-  let p ← s.forOps.foldlM (fun (p : Pool Det) op =>
+def buildPool (s : PSpec) : Except Err (Pool CDet) := do
+  let p : Pool CDet ←
+    if s.ctor then newPool s.ty s.id s.deleg s.on_ s.for_
+    else do
+      let p ← newPool s.ty s.id s.deleg none []
+      pure { p with on_ := s.on_, for_ := s.for_.foldl addSet [] }
+  let p ← s.forOps.foldlM (fun (p : Pool CDet) op =>
     if op.1 == "set" then setDefinedFor p op.2 else pure (addDefinedFor p op.2)) p
   match s.det with
     | none => pure p
     | some (k, j) => do
-      let x ← mkDet k j
+      let x ← mkD k j
       pure { p with details := some x }
 
 /-- construct the pools one after the other, `add_pool` each, then `build_index_by_delegation_id` -/
-def buildFamily (cty : DType) (specs : List PSpec) : Except Err (Pools Det) := do
+def buildFamily (cty : DType) (specs : List PSpec) : Except Err (Pools CDet) := do
   let ps ← specs.foldlM (fun ps s => do
     let p ← buildPool s
     addPool ps p) (emptyPools cty)
@@ -219,6 +229,11 @@ def pstep (j : Json) : Option PStep :=
   | .arr #[.str "index"] => some .index
   | .arr #[.str "gen"] => some .gen
   | _ => none
+
+/-- the nodes of a generated dictionary in the requested order: the listed ones first (as often as listed), the rest sorted -/
+def reorder (order : List String) (r : NodeDelegs CDet) : NodeDelegs CDet :=
+  order.filterMap (fun n => r.find? (fun e => e.1 == n)) ++
+    (r.filter (fun e => !order.contains e.1)).mergeSort (fun a b => decide (a.1 ≤ b.1))
 
 def errJson : Option Err → Json
   | none => .null
@@ -236,7 +251,7 @@ def handle (j : Json) : Json :=
     | some ty =>
       if op == "enc" then
         match dspecs x with
-        | some specs => reply toWire (do let ds ← buildDelegs ty specs; encode detOps ds)
+        | some specs => reply toWire (do let ds ← buildDelegs ty specs; encode dOps ds)
         | none => err "bad-args"
       else if op == "build" then
         match dspecs x with
@@ -246,25 +261,56 @@ def handle (j : Json) : Json :=
         match dspecs x with
         | some specs => reply delegsJson (do
             let ds ← buildDelegs ty specs
-            let t ← encode detOps ds
-            decode detOps ty t)
+            let t ← encode dOps ds
+            decode dOps ty t)
         | none => err "bad-args"
       else if op == "dec" then
         match fromWire x with
-        | some v => reply delegsJson (decode detOps ty v)
+        | some v => reply delegsJson (decode dOps ty v)
         | none => err "bad-args"
       else if op == "pools" then
         match pspecs x with
-        | some specs => reply nodeDelegsJson (do let ps ← buildFamily ty specs; generate detOps ps)
+        | some specs => reply nodeDelegsJson (do let ps ← buildFamily ty specs; generate dOps ps)
         | none => err "bad-args"
       else if op == "prt" then
         match pspecs x with
         | some specs => reply poolsJson (do
             let ps ← buildFamily ty specs
-            let r ← generate detOps ps
-            let r' ← recode detOps ty r
+            let r ← generate dOps ps
+            let r' ← recode dOps ty r
             incorporateAll (emptyPools ty) r')
         | none => err "bad-args"
+      else if op == "prto" then
+        match x.getObjVal? "fam", x.getObjVal? "order" with
+        | .ok f, .ok o =>
+          match pspecs f, getStrs o with
+          | some specs, some order => reply poolsJson (do
+              let ps ← buildFamily ty specs
+              let r ← generate dOps ps
+              let r' ← recode dOps ty r
+              incorporateAll (emptyPools ty) (reorder order r'))
+          | _, _ => err "bad-args"
+        | _, _ => err "bad-args"
+      else if op == "ann" then
+        match x.getObjVal? "fam", x.getObjVal? "dels" with
+        | .ok f, .ok (.arr nodes) =>
+          let parsed := nodes.toList.mapM (fun n =>
+            match n with
+            | .arr #[.str node, .str cty, specs] => do
+              let c ← tyOf cty
+              let s ← dspecs specs
+              pure (node, c, s)
+            | _ => none)
+          match pspecs f, parsed with
+          | some specs, some l => reply (fun (r : DType × List (String × JVal)) =>
+                Json.arr #[.str (tyName r.1), .arr ((r.2.mergeSort (fun a b => decide (a.1 ≤ b.1))).map (fun e => Json.arr #[.str e.1, toWire e.2])).toArray]) (do
+              let ps ← buildFamily ty specs
+              let dels ← l.mapM (fun (e : String × DType × List DSpec) => do
+                let ds ← buildDelegs e.2.1 e.2.2
+                pure (e.1, ds))
+              annotate dOps ps dels)
+          | _, _ => err "bad-args"
+        | _, _ => err "bad-args"
       else if op == "calls" then
         match x with
         | .arr cs =>
@@ -279,7 +325,7 @@ def handle (j : Json) : Json :=
         | .arr st =>
           match st.toList.mapM pstep with
           | some steps =>
-            let r := steps.foldl (fun (acc : Pools Det × List Json) step =>
+            let r := steps.foldl (fun (acc : Pools CDet × List Json) step =>
               match step with
               | .add s =>
                 match (do let p ← buildPool s; addPool acc.1 p) with
@@ -288,7 +334,7 @@ def handle (j : Json) : Json :=
               | .index =>
                 let r := buildIndexS acc.1
                 (r.1, acc.2 ++ [errJson r.2])
-              | .gen => (acc.1, acc.2 ++ [reply nodeDelegsJson (generate detOps acc.1)])) (emptyPools ty, [])
+              | .gen => (acc.1, acc.2 ++ [reply nodeDelegsJson (generate dOps acc.1)])) (emptyPools ty, [])
             ok (.arr r.2.toArray)
           | none => err "bad-args"
         | _ => err "bad-args"
